@@ -1,6 +1,7 @@
-(** Proofs about the model of [sqlx.CheckChangesScope]: the exact acceptance condition of
-    the code, the specification of the property (every schema name a change set
-    mentions), where they differ (witnesses) and where they agree. *)
+(** Proofs about the model of [sqlx.CheckChangesScope] (code with the C16 repairs): the
+    exact acceptance condition of the code, the specification of the property (every schema
+    name a change set mentions), that the code never rejects what the property accepts,
+    where it still accepts too much (witnesses) and where both agree. *)
 From Coq Require Import List NArith Bool Lia Permutation.
 From Atlas Require Import Base.Bytes Qual.Builder Qual.BuilderProofs Qual.Scope.
 Import ListNotations.
@@ -17,6 +18,7 @@ Definition mentions (c : change) : list bytes :=
   match c with
   | CModifySchema s => opt_name s
   | CAddTable t | CModifyTable t | CDropTable t => table_mentions t
+  | CRenameTable from to => opt_name from ++ opt_name to
   | COther ms => filter (fun m => negb (is_nil m)) ms
   | CAddSchema | CDropSchema => []
   end.
@@ -49,6 +51,7 @@ Fixpoint names_after (cs : list change) (names : list bytes) : list bytes :=
   | [] => names
   | CModifySchema (Some n) :: rest => names_after rest (add_name n names)
   | (CAddTable t | CModifyTable t | CDropTable t) :: rest => names_after rest (table_arm t names)
+  | CRenameTable from to :: rest => names_after rest (schema_arm to (schema_arm from names))
   | _ :: rest => names_after rest names
   end.
 
@@ -71,7 +74,7 @@ Proof.
   - simpl. destruct (1 <? N.of_nat (length names)) eqn:E.
     + apply N.ltb_lt in E. split; [discriminate|]. intros [_ H]. lia.
     + apply N.ltb_ge in E. split; [|reflexivity]. intros _. split; [reflexivity|lia].
-  - destruct c as [s| | |t|t|t|ms].
+  - destruct c as [s| | |t|t|t|from to|ms].
     + destruct s as [n|].
       * rewrite modify_allowed_loop. cbn [forallb change_allowed names_after].
         destruct (modify_allowed q mode n); simpl.
@@ -82,6 +85,7 @@ Proof.
         -- intros [H _]. discriminate.
     + simpl. split; [discriminate|intros [H _]; discriminate].
     + simpl. split; [discriminate|intros [H _]; discriminate].
+    + simpl. apply IH.
     + simpl. apply IH.
     + simpl. apply IH.
     + simpl. apply IH.
@@ -102,7 +106,7 @@ Lemma loop_no_panic q mode cs : no_nil_schema cs -> forall names, scope_loop q m
 Proof.
   induction 1 as [|c cs Hc _ IH]; intros names.
   - simpl. destruct (_ <? _); discriminate.
-  - destruct c as [s| | |t|t|t|ms]; try (simpl; apply IH); try (simpl; discriminate).
+  - destruct c as [s| | |t|t|t|from to|ms]; try (simpl; apply IH); try (simpl; discriminate).
     destruct s as [n|]; [|congruence].
     rewrite modify_allowed_loop. destruct (modify_allowed _ _ _); [apply IH|].
     destruct (negb _); discriminate.
@@ -140,15 +144,112 @@ Proof.
   intros x. rewrite nodup_In. apply H.
 Qed.
 
-Lemma opt_name_In s y : In y (opt_name s) <-> exists n, s = Some n /\ n <> [] /\ y = n.
+Lemma distinct_subset l a : NoDup a -> (forall x, In x a -> In x l) -> (length a <= distinct l)%nat.
 Proof.
-  unfold opt_name. destruct s as [n|].
-  - destruct n as [|c n]; simpl.
-    + split; [intros []|]. intros (m & E & N & _). injection E as <-. congruence.
-    + split.
-      * intros [H|[]]. exists (c :: n). repeat split; [discriminate|auto].
-      * intros (m & E & _ & ->). injection E as <-. auto.
-  - simpl. split; [intros []|]. intros (m & E & _). discriminate.
+  intros Ha H. unfold distinct. apply NoDup_incl_length; [exact Ha|].
+  intros x Hx. apply nodup_In. apply H. exact Hx.
+Qed.
+
+(** * The arms *)
+Lemma schema_arm_In s names y : In y (schema_arm s names) <-> In y names \/ In y (opt_name s).
+Proof.
+  unfold schema_arm, opt_name. destruct s as [n|]; simpl; [|tauto].
+  destruct n as [|c n]; simpl; [tauto|]. rewrite add_name_In. intuition congruence.
+Qed.
+
+Lemma schema_arm_NoDup s names : NoDup names -> NoDup (schema_arm s names).
+Proof.
+  intros H. unfold schema_arm. destruct s as [n|]; [|exact H].
+  destruct (is_nil n); [exact H|apply add_name_NoDup; exact H].
+Qed.
+
+(* the enum arm only ever (re-)adds the named schema of the table *)
+Lemma enum_arm_In ts cols : forall names y,
+  In y (enum_arm ts cols names) -> In y names \/ In y (opt_name ts).
+Proof.
+  induction cols as [|c cols IH]; intros names y H; simpl in H; [auto|].
+  destruct c as [[e|]|]; try (apply IH; exact H).
+  destruct ts as [tn|]; [|apply IH; exact H].
+  destruct (is_nil e || is_nil tn) eqn:E; [apply IH; exact H|].
+  apply IH in H. destruct H as [H|H]; [|auto].
+  apply add_name_In in H. destruct H as [->|H]; [|auto].
+  right. apply orb_false_iff in E as [_ E]. unfold opt_name. rewrite E. left. reflexivity.
+Qed.
+
+Lemma enum_arm_incl ts cols : forall names y, In y names -> In y (enum_arm ts cols names).
+Proof.
+  induction cols as [|c cols IH]; intros names y H; simpl; [exact H|].
+  destruct c as [[e|]|]; try (apply IH; exact H).
+  destruct ts as [tn|]; [|apply IH; exact H].
+  destruct (is_nil e || is_nil tn); apply IH; [exact H|]. apply add_name_In. auto.
+Qed.
+
+Lemma enum_arm_NoDup ts cols : forall names, NoDup names -> NoDup (enum_arm ts cols names).
+Proof.
+  induction cols as [|c cols IH]; intros names H; simpl; [exact H|].
+  destruct c as [[e|]|]; try (apply IH; exact H).
+  destruct ts as [tn|]; [|apply IH; exact H].
+  destruct (is_nil e || is_nil tn); apply IH; [exact H|apply add_name_NoDup; exact H].
+Qed.
+
+(* after the repair the enum arm is dead code: the table's schema is already recorded *)
+Lemma table_arm_In t names y : In y (table_arm t names) <-> In y names \/ In y (opt_name (st_schema t)).
+Proof.
+  unfold table_arm. split.
+  - intros H. apply enum_arm_In in H. rewrite schema_arm_In in H. tauto.
+  - intros H. apply enum_arm_incl. apply schema_arm_In. exact H.
+Qed.
+
+Lemma table_arm_NoDup t names : NoDup names -> NoDup (table_arm t names).
+Proof. intros H. unfold table_arm. apply enum_arm_NoDup, schema_arm_NoDup, H. Qed.
+
+Lemma names_after_NoDup cs : forall names, NoDup names -> NoDup (names_after cs names).
+Proof.
+  induction cs as [|c cs IH]; intros names H; simpl; [exact H|].
+  destruct c as [[n|]| | |t|t|t|from to|ms]; try (apply IH; exact H).
+  - apply IH. apply add_name_NoDup. exact H.
+  - apply IH. apply table_arm_NoDup. exact H.
+  - apply IH. apply table_arm_NoDup. exact H.
+  - apply IH. apply table_arm_NoDup. exact H.
+  - apply IH. apply schema_arm_NoDup, schema_arm_NoDup, H.
+Qed.
+
+(** * The code never counts a name the change set does not mention *)
+(* every ModifySchema carries a named schema ([names[c.S.Name]] records "" otherwise) *)
+Definition named_modify (c : change) : Prop :=
+  match c with CModifySchema None => False | CModifySchema (Some n) => n <> [] | _ => True end.
+
+Lemma table_mentions_own t y : In y (opt_name (st_schema t)) -> In y (table_mentions t).
+Proof. intros H. unfold table_mentions. apply in_or_app. auto. Qed.
+
+Lemma names_after_sub cs : Forall named_modify cs -> forall names y,
+  In y (names_after cs names) -> In y names \/ In y (all_mentions cs).
+Proof.
+  induction 1 as [|c cs Hc _ IH]; intros names y H; simpl in H; [auto|].
+  unfold all_mentions in *. simpl. rewrite in_app_iff.
+  destruct c as [[n|]| | |t|t|t|from to|ms]; simpl in Hc; try contradiction;
+    apply IH in H; try tauto.
+  - destruct H as [H|H]; [|tauto]. apply add_name_In in H. destruct H as [->|H]; [|tauto].
+    right. left. simpl. destruct n; [congruence|]. left. reflexivity.
+  - destruct H as [H|H]; [|tauto]. apply table_arm_In in H. destruct H as [H|H]; [tauto|].
+    right. left. apply table_mentions_own, H.
+  - destruct H as [H|H]; [|tauto]. apply table_arm_In in H. destruct H as [H|H]; [tauto|].
+    right. left. apply table_mentions_own, H.
+  - destruct H as [H|H]; [|tauto]. apply table_arm_In in H. destruct H as [H|H]; [tauto|].
+    right. left. apply table_mentions_own, H.
+  - destruct H as [H|H]; [|tauto]. rewrite !schema_arm_In in H. simpl. rewrite in_app_iff. tauto.
+Qed.
+
+(** whatever the property accepts the code accepts: no spurious rejection *)
+Theorem scope_sound q mode cs : Forall named_modify cs ->
+  spec_accepts q mode cs -> CheckChangesScope q mode cs = SOk.
+Proof.
+  intros N [A D]. apply check_accepts_iff. split; [exact A|].
+  assert (K : (length (names_after cs []) <= distinct (all_mentions cs))%nat).
+  { apply distinct_subset.
+    - apply names_after_NoDup. constructor.
+    - intros x Hx. apply (names_after_sub cs N) in Hx. destruct Hx as [[]|Hx]. exact Hx. }
+  lia.
 Qed.
 
 (** * Where the code and the property agree *)
@@ -165,81 +266,46 @@ Definition local_change (c : change) : Prop :=
   | _ => True
   end.
 
-Lemma enum_arm_In_local ts cols : forall names,
-  (forall e, In (TEnum (Some e)) cols -> e <> [] -> ts = Some e) ->
-  forall y, In y (enum_arm ts cols names) <-> In y names \/ In y (flat_map col_mentions cols).
+Lemma local_named c : local_change c -> named_modify c.
+Proof. destruct c as [[n|]| | |t|t|t|from to|ms]; simpl; auto. Qed.
+
+Lemma table_mentions_local t y : enums_local_t t -> In y (table_mentions t) -> In y (opt_name (st_schema t)).
 Proof.
-  induction cols as [|c cols IH]; intros names L y; simpl.
+  intros L H. unfold table_mentions in H. apply in_app_or in H. destruct H as [H|H]; [exact H|].
+  apply in_flat_map in H. destruct H as (c & Hc & Hy).
+  destruct c as [[e|]|]; simpl in Hy; try contradiction.
+  destruct e as [|c0 e]; simpl in Hy; [contradiction|]. destruct Hy as [<-|[]].
+  rewrite (L (c0 :: e) Hc) by discriminate. simpl. left. reflexivity.
+Qed.
+
+Lemma names_after_sup cs : Forall local_change cs -> forall names y,
+  In y names \/ In y (all_mentions cs) -> In y (names_after cs names).
+Proof.
+  induction 1 as [|c cs Hc _ IH]; intros names y H; simpl; [unfold all_mentions in H; simpl in H; tauto|].
+  unfold all_mentions in *. simpl in H. rewrite in_app_iff in H.
+  destruct c as [[n|]| | |t|t|t|from to|ms]; simpl in Hc, H; try contradiction; apply IH.
+  - rewrite add_name_In. destruct n as [|c n]; [congruence|]. simpl in H. intuition congruence.
   - tauto.
-  - assert (L' : forall e, In (TEnum (Some e)) cols -> e <> [] -> ts = Some e)
-      by (intros e He; apply L; right; exact He).
-    destruct c as [[e|]|]; simpl.
-    + destruct e as [|c0 e].
-      * destruct ts; simpl; rewrite IH by exact L'; tauto.
-      * assert (Ets : ts = Some (c0 :: e)) by (apply L; [left; reflexivity|discriminate]).
-        subst ts. simpl. rewrite IH by exact L'. rewrite add_name_In. intuition congruence.
-    + rewrite IH by exact L'. tauto.
-    + rewrite IH by exact L'. tauto.
+  - tauto.
+  - rewrite table_arm_In. destruct H as [H|[H|H]]; auto. left. right. apply table_mentions_local; assumption.
+  - rewrite table_arm_In. destruct H as [H|[H|H]]; auto. left. right. apply table_mentions_local; assumption.
+  - rewrite table_arm_In. destruct H as [H|[H|H]]; auto. left. right. apply table_mentions_local; assumption.
+  - rewrite !schema_arm_In. rewrite in_app_iff in H. tauto.
+  - rewrite Hc in H. simpl in H. tauto.
 Qed.
 
-Lemma enum_arm_NoDup ts cols : forall names, NoDup names -> NoDup (enum_arm ts cols names).
-Proof.
-  induction cols as [|c cols IH]; intros names H; simpl; [exact H|].
-  destruct c as [[e|]|]; try (apply IH; exact H).
-  destruct ts as [tn|]; [|apply IH; exact H].
-  destruct (is_nil e); apply IH; [exact H|apply add_name_NoDup; exact H].
-Qed.
-
-Lemma table_arm_NoDup t names : NoDup names -> NoDup (table_arm t names).
-Proof.
-  intros H. unfold table_arm. apply enum_arm_NoDup.
-  destruct (st_schema t) as [n|]; [|exact H]. destruct (is_nil n); [exact H|apply add_name_NoDup; exact H].
-Qed.
-
-Lemma table_arm_In_local t names y : enums_local_t t ->
-  In y (table_arm t names) <-> In y names \/ In y (table_mentions t).
-Proof.
-  intros L. unfold table_arm, table_mentions. rewrite enum_arm_In_local by exact L.
-  rewrite in_app_iff.
-  destruct (st_schema t) as [n|]; simpl; [|tauto].
-  destruct n as [|c n]; simpl; [tauto|]. rewrite add_name_In. simpl. intuition congruence.
-Qed.
-
-Lemma names_after_NoDup cs : forall names, NoDup names -> NoDup (names_after cs names).
-Proof.
-  induction cs as [|c cs IH]; intros names H; simpl; [exact H|].
-  destruct c as [[n|]| | |t|t|t|ms]; try (apply IH; exact H).
-  - apply IH. apply add_name_NoDup. exact H.
-  - apply IH. apply table_arm_NoDup. exact H.
-  - apply IH. apply table_arm_NoDup. exact H.
-  - apply IH. apply table_arm_NoDup. exact H.
-Qed.
-
-Lemma names_after_In_local cs : Forall local_change cs -> forall names y,
-  In y (names_after cs names) <-> In y names \/ In y (all_mentions cs).
-Proof.
-  induction 1 as [|c cs Hc _ IH]; intros names y; simpl; [tauto|].
-  unfold all_mentions in *. simpl. rewrite in_app_iff.
-  destruct c as [[n|]| | |t|t|t|ms]; simpl in Hc |- *; try contradiction.
-  - rewrite IH. rewrite add_name_In.
-    destruct n as [|c n]; [congruence|]. simpl. intuition congruence.
-  - rewrite IH. tauto.
-  - rewrite IH. tauto.
-  - rewrite IH. rewrite table_arm_In_local by exact Hc. tauto.
-  - rewrite IH. rewrite table_arm_In_local by exact Hc. tauto.
-  - rewrite IH. rewrite table_arm_In_local by exact Hc. tauto.
-  - rewrite IH. rewrite Hc. simpl. tauto.
-Qed.
-
-(** on change sets without the three deviations the code decides exactly the property *)
+(** on change sets without the two remaining deviations the code decides exactly the property *)
 Theorem scope_except q mode cs : Forall local_change cs ->
   (CheckChangesScope q mode cs = SOk <-> spec_accepts q mode cs).
 Proof.
   intros L. rewrite check_accepts_iff. unfold spec_accepts.
+  assert (N : Forall named_modify cs) by (eapply Forall_impl; [apply local_named|exact L]).
   assert (E : length (names_after cs []) = distinct (all_mentions cs)).
   { apply distinct_set.
     - apply names_after_NoDup. constructor.
-    - intros x. rewrite (names_after_In_local cs L). simpl. tauto. }
+    - intros x. split.
+      + intros H. apply (names_after_sub cs N) in H. destruct H as [[]|H]. exact H.
+      + intros H. apply (names_after_sup cs L). auto. }
   rewrite E. tauto.
 Qed.
 
@@ -249,16 +315,19 @@ Proof.
   intros c Hc E. subst. exact Hc.
 Qed.
 
-(** * Where they differ: witnesses *)
+(** * Where they still differ: witnesses *)
 Definition s1 : bytes := [115; 49].   (* "s1" *)
 Definition s2 : bytes := [115; 50].   (* "s2" *)
 
-(* a table of s1 with an enum column of s2: two schemas named, accepted *)
+(* a table of s1 with an enum column of s2: two schemas named, accepted (pinned by
+   sql/postgres TestPlanChanges/50) *)
 Definition w_enum : list change := [CAddTable (mkST (Some s1) [TEnum (Some s2)])].
-(* a table of s1 and a non-table change (RenameTable, AddObject, ...) naming s2: accepted *)
+(* a table of s1 and an object change (AddObject{enum of s2}, ...): accepted (same test:
+   its enum object lives in a schema literally called "ignored") *)
 Definition w_other : list change := [CAddTable (mkST (Some s1) []); COther [s2]].
-(* a table whose schema has an empty name with an enum of s1, and a table of s1:
-   one schema named, rejected ("found 2 schemas") *)
+(* repaired: a rename across schemas is rejected; a table whose schema has an empty name with
+   an enum of s1 next to a table of s1 is accepted *)
+Definition w_rename : list change := [CRenameTable (Some s1) (Some s2)].
 Definition w_empty : list change :=
   [CAddTable (mkST (Some []) [TEnum (Some s1)]); CAddTable (mkST (Some s1) [])].
 
@@ -266,23 +335,16 @@ Lemma w_enum_facts : CheckChangesScope (Some []) 2 w_enum = SOk /\ distinct (all
 Proof. split; vm_compute; reflexivity. Qed.
 Lemma w_other_facts : CheckChangesScope (Some []) 2 w_other = SOk /\ distinct (all_mentions w_other) = 2%nat.
 Proof. split; vm_compute; reflexivity. Qed.
-Lemma w_empty_facts : CheckChangesScope (Some []) 2 w_empty = EMulti 2 /\ distinct (all_mentions w_empty) = 1%nat
-  /\ forallb (change_allowed (Some []) 2) w_empty = true.
-Proof. repeat split; vm_compute; reflexivity. Qed.
+Lemma w_repaired_facts :
+  CheckChangesScope (Some []) 2 w_rename = EMulti 2 /\ CheckChangesScope (Some []) 2 w_empty = SOk.
+Proof. split; vm_compute; reflexivity. Qed.
 
 Definition accepts_too_much : Prop :=
   exists q mode cs, no_nil_schema cs /\ CheckChangesScope q mode cs = SOk /\ ~ spec_accepts q mode cs.
-Definition rejects_too_much : Prop :=
-  exists q mode cs, no_nil_schema cs /\ CheckChangesScope q mode cs <> SOk /\ spec_accepts q mode cs.
 
-Theorem scope_refuted : accepts_too_much /\ rejects_too_much.
+Theorem scope_refuted : accepts_too_much.
 Proof.
-  split.
-  - exists (Some []), 2, w_enum. destruct w_enum_facts as [A B]. split; [|split; [exact A|]].
-    + repeat constructor; discriminate.
-    + intros [_ H]. rewrite B in H. lia.
-  - exists (Some []), 2, w_empty. destruct w_empty_facts as (A & B & C). split; [|split].
-    + repeat constructor; discriminate.
-    + rewrite A. discriminate.
-    + split; [exact C|]. rewrite B. lia.
+  exists (Some []), 2, w_enum. destruct w_enum_facts as [A B]. split; [|split; [exact A|]].
+  - repeat constructor; discriminate.
+  - intros [_ H]. rewrite B in H. lia.
 Qed.
